@@ -85,13 +85,15 @@ def gen_conn_lines(ctx):
     # connections made by the REAL constructors: tcp.Client with options.WithLimitClient…, and connections accepted by a real
     # tcp.Server / dtls.Server configured with these options (the requests are the ones the server sends to its peer; the
     # limits in the header are the server's configuration: the judge demands "at most" them)
-    for tr, cfgs in (("tcpcli", ((2, 1), (1, 1))), ("tcpsrv", ((2, 1), (4, 1), (1, 2))), ("dtlssrv", ((2, 1), (4, 1), (1, 2)))):
+    # dtlscli = dtls.Client (the option appliers udp.Client uses too) configured by an option LIST in which other options
+    # (WithTransmission, WithMaxMessageSize, WithBlockwise, …) precede and follow the two limit options
+    for tr, cfgs in (("tcpcli", ((2, 1), (1, 1))), ("dtlscli", ((1, 1), (2, 1), (2, 2))), ("tcpsrv", ((2, 1), (4, 1), (1, 2))), ("dtlssrv", ((2, 1), (4, 1), (1, 2)))):
         for (l, e) in cfgs:
             L.append("connexplore %s %d %d %d 2" % (tr, l, e, 4 if thorough and (l, e) == (2, 1) else 3))
     if not thorough:
         L.append("connexplore tcp 1 1 4 1")
         L.append("connexplore udp 2 1 4 1")
-    for i, tr in enumerate(("udp", "tcp", "tcpcli", "tcpsrv", "dtlssrv")):
+    for i, tr in enumerate(("udp", "tcp", "tcpcli", "tcpsrv", "dtlssrv", "dtlscli")):
         L.append("connrandom %s %d %d 7 2" % (tr, ctx.seed + 77 + i, (3000 if i < 2 else 1000) if thorough else (300 if i < 2 else 150)))
     return L
 
@@ -287,6 +289,8 @@ def explore(ctx, art):
             ctx.count("histories on connections accepted by a real server (%s)" % h.split()[1])
         if h.startswith("conn tcpcli"):
             ctx.count("histories on connections made by tcp.Client with options.WithLimit…")
+        if h.startswith("conn dtlscli"):
+            ctx.count("histories on connections made by dtls.Client with an option list (other options before and after the limit options)")
         if h.startswith("conn ") and "unobserve" in h:
             ctx.count("connection-level histories with Observation.Cancel")
         ctx.count("events", nev)
